@@ -653,6 +653,39 @@ pub fn gen_c12(rng: &mut Rng) -> ConnCase {
     c
 }
 
+/// C12: the request that ends the connection is an upload the client has only partly sent and
+/// keeps open; the application answers without reading it.  The client must see the response and
+/// then end-of-stream (the server's sending side closes once the last response is written), although
+/// discarding the rest of the body — which answering a request includes — waits for the client.
+pub fn gen_c12_stalled(rng: &mut Rng) -> ConnCase {
+    let mut reqs = vec![];
+    let mut script = vec![];
+    if rng.chance(1, 2) {
+        reqs.push(AReq::get("/before"));
+        script.push(simple_action(0, rng));
+    }
+    let mut r = AReq::get("/upload");
+    r.method = "POST".into();
+    let total = *rng.pick(&[1500usize, 3000]);
+    let fr = if rng.chance(1, 3) { Framing::Chunked } else { Framing::Len };
+    set_body(rng, &mut r, fr, total);
+    if rng.chance(1, 2) {
+        r.hdrs.push((crate::recase(rng, "Connection"), "close".into()));
+    } else {
+        r.ver = (1, 0);
+    }
+    r.last = true;
+    reqs.push(r);
+    let k = script.len();
+    script.push(Action { as_reader: 0, read_total: 0, buf: 1, delay_ms: 0, fin: Finish::Respond(ok_resp(k, rng)), zero_read: false });
+    let mut c = assemble(rng, &reqs, script, Mode::Open, "i_stall=1");
+    // only the first part of the body is ever sent
+    let cut = *rng.pick(&[1usize, 200, 1100]);
+    let keep = c.bytes.len() - (total - std::cmp::min(cut, total - 1)) - if c.bytes.ends_with(b"0\r\n\r\n") { 5 } else { 0 };
+    c.bytes.truncate(std::cmp::min(keep, c.bytes.len()));
+    c
+}
+
 /// C18: Expect: 100-continue with a client that withholds the body
 pub fn gen_c18(rng: &mut Rng) -> ConnCase {
     let mut r = AReq::get("/expect");
